@@ -78,104 +78,6 @@ def _form_rings_bilocally(mol: 'MolecularGraph', rings: list):
               tag="requests-unchanged")
 
 
-@spec
-def rings_sep(mol, rings):
-    return (typed(rings, 'list') and rings != mol._atoms and rings != mol._adj_list and rings != mol._bond_counts
-            and rings != mol._ring_bond_flags and rings != mol._roots
-            and all(rings != mol._adj_list[i] for i in range(len(mol._atoms))))
-
-
-@spec
-def state_ok(mol, state, prev_atom, init_state):
-    # meaning of the derivation state X_i: i bond orders are still available on the previously derived atom
-    return (typed(state, 'None')
-            or (typed(state, 'int') and state == 0 and init_state == 0 and typed(prev_atom, 'None'))
-            or (typed(state, 'int') and state >= 1 and in_mol(mol, prev_atom)
-                and state <= capH(prev_atom) - mol._bond_counts[prev_atom.index]))
-
-
-@contract("selfies/decoder.py::_derive_mol_from_symbols", props=["C01", "C02", "C08"])
-def _derive_mol_from_symbols(symbol_iter: 'iter[tuple[int,str]]', mol: 'MolecularGraph', selfies: str,
-                             max_derive: 'float|int', init_state: int, root_atom: 'Atom|None', rings: list,
-                             attribute_stack: 'None', attribution_index: int):
-    # scope: attribution off, ASCII symbols of bounded length (see process_atom_symbol), recursion depth not modelled
-    requires(typed(max_derive, 'int') == (not typed(max_derive, 'float')) and implies(typed(max_derive, 'int'), max_derive >= 1))
-    requires(implies(typed(max_derive, 'float'), max_derive == inf()))
-    requires(all(ascii_str(iter_item(symbol_iter, j)[1]) and len(iter_item(symbol_iter, j)[1]) <= 4000
-                 for j in range(iter_len(symbol_iter))))
-    requires(table_ok(_current_constraints) and atom_cache_ok() and _PROCESS_ATOM_CACHE != _current_constraints)
-    requires(_current_constraints != mol._bond_dict and _current_constraints != mol._delocal_subgraph
-             and _PROCESS_ATOM_CACHE != mol._bond_dict and _PROCESS_ATOM_CACHE != mol._delocal_subgraph)
-    requires(wf(mol) and wf_basic(mol) and atoms_ok(mol) and val_ok(mol) and bonds_ok(mol) and adj_ok(mol))
-    requires(typed(mol._attributable, 'bool') and not mol._attributable)
-    requires(rings_sep(mol, rings) and all(ring_ok(mol, rings[j]) for j in range(len(rings))))
-    requires(init_state >= 0 and implies(init_state == 0, typed(root_atom, 'None'))
-             and implies(init_state >= 1, in_mol(mol, root_atom)
-                         and init_state <= capH(root_atom) - mol._bond_counts[root_atom.index]))
-    opaque("bonds_ok", "adj_ok")
-    modifies(symbol_iter, rings, _PROCESS_ATOM_CACHE, mol._atoms, mol._adj_list, mol._bond_counts, mol._ring_bond_flags,
-             mol._roots, mol._bond_dict, mol._delocal_subgraph,
-             each(mol._adj_list[i] for i in range(len(mol._atoms))))
-    raises(DecoderError)
-    decreases(iter_len(symbol_iter) - iter_pos(symbol_iter))
-    ensures(typed(result, 'int') and result >= 0, tag="C08:returns-count")
-    ensures(wf(mol) and wf_basic(mol) and atoms_ok(mol) and bonds_ok(mol) and adj_ok(mol),
-            tag="C01:derivation-keeps-graph-well-formed")
-    ensures(val_ok(mol), tag="C01:derivation-respects-valence")
-    ensures(len(mol._atoms) >= old(len(mol._atoms))
-            and all(mol._atoms[i] == old(mol._atoms[i]) for i in range(old(len(mol._atoms)))),
-            tag="C01,C02:atoms-only-appended")
-    ensures(all(implies(typed(root_atom, 'None') or i != root_atom.index, mol._bond_counts[i] == old(mol._bond_counts[i]))
-                for i in range(old(len(mol._atoms)))), tag="C01:old-atoms-untouched")
-    ensures(implies(init_state >= 1, mol._bond_counts[root_atom.index] <= old(mol._bond_counts[root_atom.index]) + init_state),
-            tag="C01:branch-uses-at-most-its-state")
-    ensures(rings_sep(mol, rings) and all(ring_ok(mol, rings[j]) for j in range(len(rings))), tag="C01:ring-requests-valid")
-    ensures(table_ok(_current_constraints) and atom_cache_ok() and _current_constraints == old(_current_constraints)
-            and same_dict_state(_current_constraints), tag="C08,C11:configuration-untouched")
-    ensures(iter_len(symbol_iter) == old(iter_len(symbol_iter)) and iter_pos(symbol_iter) >= old(iter_pos(symbol_iter))
-            and iter_pos(symbol_iter) <= iter_len(symbol_iter), tag="C08:iterator-advances")
-    invariant("while state is not None and n_derived < max_derive",
-              derive_inv(symbol_iter, mol, init_state, root_atom, rings, n_derived, state, prev_atom), tag="frame-and-graph")
-    invariant("while state is not None and n_derived < max_derive", state_ok(mol, state, prev_atom, init_state),
-              tag="state-bounded-by-free-valence")
-    invariant("while state is not None and n_derived < max_derive",
-              implies(typed(state, 'int') and state >= 1,
-                      prev_atom == root_atom or prev_atom.index >= old(len(mol._atoms))), tag="prev-is-root-or-new")
-    invariant("while state is not None and n_derived < max_derive",
-              implies(init_state >= 1,
-                      mol._bond_counts[root_atom.index]
-                      + (state if (typed(state, 'int') and state >= 1 and prev_atom == root_atom) else 0)
-                      <= old(mol._bond_counts[root_atom.index]) + init_state), tag="root-budget")
-    variant("while state is not None and n_derived < max_derive", iter_len(symbol_iter) - iter_pos(symbol_iter))
-    invariant("while n_derived < max_derive",
-              derive_inv(symbol_iter, mol, init_state, root_atom, rings, n_derived, state, prev_atom), tag="frame-and-graph-2")
-    invariant("while n_derived < max_derive",
-              implies(init_state >= 1, mol._bond_counts[root_atom.index] <= old(mol._bond_counts[root_atom.index]) + init_state),
-              tag="root-budget-2")
-    variant("while n_derived < max_derive", iter_len(symbol_iter) - iter_pos(symbol_iter))
-
-
-@spec
-def derive_inv(symbol_iter, mol, init_state, root_atom, rings, n_derived, state, prev_atom):
-    return (typed(n_derived, 'int') and n_derived >= 0
-            and wf(mol) and wf_basic(mol) and atoms_ok(mol) and val_ok(mol) and bonds_ok(mol) and adj_ok(mol)
-            and mol._atoms == old(mol._atoms) and mol._adj_list == old(mol._adj_list)
-            and mol._bond_counts == old(mol._bond_counts) and mol._bond_dict == old(mol._bond_dict)
-            and mol._roots == old(mol._roots) and mol._ring_bond_flags == old(mol._ring_bond_flags)
-            and mol._delocal_subgraph == old(mol._delocal_subgraph)
-            and typed(mol._attributable, 'bool') and not mol._attributable
-            and len(mol._atoms) >= old(len(mol._atoms))
-            and all(mol._atoms[i] == old(mol._atoms[i]) for i in range(old(len(mol._atoms))))
-            and all(implies(typed(root_atom, 'None') or i != root_atom.index,
-                            mol._bond_counts[i] == old(mol._bond_counts[i])) for i in range(old(len(mol._atoms))))
-            and rings_sep(mol, rings) and all(ring_ok(mol, rings[j]) for j in range(len(rings)))
-            and table_ok(_current_constraints) and atom_cache_ok() and _current_constraints == old(_current_constraints)
-            and same_dict_state(_current_constraints) and _PROCESS_ATOM_CACHE == old(_PROCESS_ATOM_CACHE)
-            and iter_len(symbol_iter) == old(iter_len(symbol_iter)) and iter_exc(symbol_iter) == old(iter_exc(symbol_iter))
-            and iter_pos(symbol_iter) >= old(iter_pos(symbol_iter)) and iter_pos(symbol_iter) <= iter_len(symbol_iter)
-            and all(iter_item(symbol_iter, j) == old(iter_item(symbol_iter, j)) for j in range(iter_len(symbol_iter))))
-
-
 @contract("selfies/decoder.py::_tokenize_selfies", props=["C13", "C08", "C18"])
 def _tokenize_selfies(selfies: str, compatible: bool):
     # the decoder's token generator: [nop] is dropped before anything else sees a symbol, and the tokenizer's
